@@ -921,7 +921,9 @@ class PolarsModel(data_algebra.data_model.DataModel):
             reversed_cols = [
                 True if ci in set(op.reverse) else False for ci in op.order_by
             ]
-            res = res.sort(by=op.order_by, descending=reversed_cols)
+            res = res.sort(
+                by=op.order_by, descending=reversed_cols, maintain_order=True
+            )
         res = res.with_columns(produced_columns)
         if len(temp_v_columns) > 0:
             res = res.select(op.columns_produced())
@@ -988,7 +990,7 @@ class PolarsModel(data_algebra.data_model.DataModel):
             produced_columns.append(fld_k.alias(k))
         if len(temp_v_columns) > 0:
             res = res.with_columns(temp_v_columns)
-        res = res.group_by(group_by).agg(produced_columns)
+        res = res.group_by(group_by, maintain_order=True).agg(produced_columns)
         if len(temp_v_columns) > 0:
             res = res.select(op.columns_produced())
         if (op.group_by is None) or (len(op.group_by) == 0):
@@ -1106,8 +1108,11 @@ class PolarsModel(data_algebra.data_model.DataModel):
             True if ci in set(op.reverse) else False for ci in op.order_columns
         ]
         res = res.sort(
-            by=op.order_columns, descending=reversed_cols, nulls_last=True
-        )  # missing values last, as Pandas orders them
+            by=op.order_columns,
+            descending=reversed_cols,
+            nulls_last=True,
+            maintain_order=True,
+        )  # missing values last, as Pandas orders them; ties keep their order
         if op.limit is not None:
             res = res.head(op.limit)
         return res
